@@ -557,6 +557,17 @@ impl<'a> Analysis<'a> {
         self.inversion(c).0
     }
 
+    /// the trace was (or may have been) in flight when the reporter was replaced: the new collector
+    /// knows nothing of it, so only safety is checked for it (nothing wrong, nothing twice, nothing
+    /// of a cancelled trace), not presence
+    pub fn relaxed(&self, c: usize) -> bool {
+        if self.model.replace_ops.is_empty() {
+            return false;
+        }
+        let root = outer(self.model.collects[c].create_op);
+        self.model.replace_ops.iter().any(|r| !self.hb.before(outer(*r), root))
+    }
+
     /// (cross-ring inversion = finding D2, same-ring inversion = commands of one thread reordered)
     pub fn inversion(&self, c: usize) -> (bool, bool) {
         let (cross, same, _) = self.inversion3(c);
